@@ -50,6 +50,7 @@ type Step struct {
 	Desc    bool
 	WithVal bool
 	Stop    int // visits: stop after Stop+1 deliveries (-1 never)
+	Big     int // Set: the value is padded to this many bytes (0: a short value)
 }
 
 func (s Step) String() string {
@@ -69,6 +70,7 @@ type Program struct {
 	Callbacks *gkvlite.StoreCallbacks
 	// CloseAtEnd closes the store after the final read (end-of-life balance checks).
 	CloseAtEnd bool
+	BigVals    int // number of Set steps with a value of 64 KiB or more
 }
 
 // Event is one recorded client call.
@@ -328,6 +330,13 @@ func (r *runner) worker(id int, steps []Step) {
 			if st.K == MSet {
 				valN++
 				val := []byte(fmt.Sprintf("w%d:%d", id, valN))
+				if st.Big > len(val) {
+					pad := make([]byte, st.Big-len(val))
+					for i := range pad {
+						pad[i] = byte('a' + (i*7+valN)%26)
+					}
+					val = append(append(val, ':'), pad...)
+				}
 				ev.Val = val
 				err := c.SetItem(&gkvlite.Item{Key: st.Key, Val: val, Priority: st.Prio})
 				if err != nil {
